@@ -1,5 +1,6 @@
 import RP.Lemmas.HandsIter
 import RP.Lemmas.KSubsets
+import RP.Lemmas.ObsIter
 /-! # C06 — Exhaustive iterators visit every situation exactly once; class counts are exact
 
 Model: `RP/Model/Hands.lean` (`HandIterator`, `ObservationIterator`, `IsomorphismIterator`,
@@ -226,6 +227,351 @@ theorem C06_k0_deviation (short : Bool) (mask : Nat) :
   refine ⟨rfl, ?_⟩
   rw [C06_hands_k0]; simp [ksubsets]
 
+/-! ## ① `ObservationIterator` = pockets × boards, in terms of the `HandIterator` lists -/
+
+theorem hands_eq_handsOfHand (short : Bool) (k p : Nat) (hp : handOf short p = p) :
+    hands short k p = handsOfHand short k p := by
+  unfold hands; rw [hp]
+
+theorem hands_two_zero (short : Bool) : hands short 2 0 = handsFrom short (HandIter.init short 2 0) := by
+  unfold hands handsOfHand handOf; rw [Nat.zero_and]
+
+/-- the "primed" first pocket of `ObservationIterator::start()` is the first pocket the outer
+iterator yields (2c2d, resp. 6c6d in the short deck) -/
+theorem outer_first (short : Bool) :
+    HandIter.step short (HandIter.init short 2 0) = some (obsStart short, (HandIter.init short 2 0).advance) := by
+  have hn : (HandIter.init short 2 0).next = obsStart short := by cases short <;> decide +kernel
+  have hs : obsStart short < 2^52 ∧ 0 < obsStart short ∧ handOf short (obsStart short) = obsStart short := by
+    cases short <;> decide +kernel
+  rw [step_live short _ (by rw [hn]; exact hs.2.1) (by rw [hn]; exact hs.1), hn, hs.2.2]
+
+theorem blocked_zero (short : Bool) : blocked short 0 = if short then 65535 else 0 := by
+  cases short <;> decide +kernel
+
+/-- what is known about every pocket the outer iterator yields -/
+theorem mem_pockets (short : Bool) (p : Nat) (hp : p ∈ hands short 2 0) :
+    p < 2^52 ∧ handOf short p = p ∧ popW 64 p = 2 ∧ p &&& blocked short 0 = 0 := by
+  have h := ((hands_spec short 2 0 (by omega) (by omega)).2 p).mp hp
+  have h' := (isHand_iff short 2 0 p).mp h
+  exact ⟨h'.2.2, h.2.2, h.1, h'.2.1⟩
+
+/-- with a pocket removed, 50 cards (34 in the short deck) remain -/
+theorem nFree_pocket (short : Bool) (p : Nat) (hp : p ∈ hands short 2 0) :
+    nFree short p = if short then 34 else 50 := by
+  obtain ⟨h1, h2, h3, h4⟩ := mem_pockets short p hp
+  unfold nFree blocked
+  rw [h2]
+  have hp52 : popW 52 p = 2 := by rw [← popW_eq_of_lt h1 (by omega : 52 ≤ 64)]; exact h3
+  cases short
+  · show 52 - popW 52 p = 50
+    rw [hp52]
+  · show 52 - popW 52 (p ||| 65535) = 34
+    rw [blocked_zero] at h4
+    rw [popW_or_disjoint 52 p 65535 h4, hp52]
+    decide +kernel
+
+theorem boards_length (short : Bool) (n p : Nat) (hn : 1 ≤ n) (hn64 : n < 64) (hp : p ∈ hands short 2 0) :
+    handsOfHand short n p = hands short n p ∧
+    (hands short n p).length = Nat.choose (if short then 34 else 50) n := by
+  obtain ⟨_, h2, _, _⟩ := mem_pockets short p hp
+  refine ⟨(hands_eq_handsOfHand short n p h2).symm, ?_⟩
+  rw [C06_hands_count short n p hn hn64, nFree_pocket short p hp]
+
+theorem length_flatMap_const {α β : Type} (l : List α) (f : α → List β) (c : Nat)
+    (h : ∀ a ∈ l, (f a).length = c) : (l.flatMap f).length = l.length * c := by
+  induction l with
+  | nil => simp
+  | cons a t ih =>
+    rw [List.flatMap_cons, List.length_append, h a (List.mem_cons_self ..),
+      ih (fun b hb => h b (List.mem_cons_of_mem _ hb)), List.length_cons]
+    ring
+
+theorem flatMap_congr' {α β : Type} (l : List α) (f g : α → List β) (h : ∀ a ∈ l, f a = g a) :
+    l.flatMap f = l.flatMap g := by
+  induction l with
+  | nil => rfl
+  | cons a t ih =>
+    rw [List.flatMap_cons, List.flatMap_cons, h a (List.mem_cons_self ..),
+      ih (fun b hb => h b (List.mem_cons_of_mem _ hb))]
+
+theorem pockets_length (short : Bool) : (hands short 2 0).length = if short then 630 else 1326 := by
+  rw [C06_hands_count short 2 0 (by omega) (by omega)]
+  cases short <;> decide +kernel
+
+/-- streets with a board: flop, turn, river -/
+def boardStreet (street : Nat) : Prop := street = 1 ∨ street = 2 ∨ street = 3
+
+theorem nObserved_board (street : Nat) (h : boardStreet street) :
+    1 ≤ nObserved street ∧ nObserved street ≤ 5 := by
+  rcases h with rfl | rfl | rfl <;> decide
+
+/-- **C06_observations** (flop, turn, river): the stateful iterator — primed first pocket, inner
+board iterator rebuilt for every pocket — yields exactly
+`for p in hands(2, ∅) { for b in hands(n, p) { (p, b) } }`, in that order. -/
+theorem C06_observations (short : Bool) (street : Nat) (hs : boardStreet street) :
+    Hands.observations short street =
+      (hands short 2 0).flatMap (fun p => (hands short (nObserved street) p).map (fun b => (p, b))) := by
+  obtain ⟨hn1, hn5⟩ := nObserved_board street hs
+  have hs0 : street ≠ 0 := by rcases hs with h | h | h <;> omega
+  generalize hn : nObserved street = n at *
+  have hfirst := outer_first short
+  have hg0 : Good short 2 (HandIter.init short 2 0) := good_init short 2 0 (by omega) (by omega) (by decide)
+  have hpk : hands short 2 0 = obsStart short :: handsFrom short (HandIter.init short 2 0).advance := by
+    rw [hands_two_zero]
+    rcases good_step short 2 (by omega) _ hg0 with ⟨h1, _⟩ | ⟨x, s', h1, _, h3⟩
+    · rw [hfirst] at h1; exact absurd h1 (by simp)
+    · rw [hfirst] at h1
+      simp only [Option.some.injEq, Prod.mk.injEq] at h1
+      rw [h3, ← h1.1, ← h1.2]
+  have hgo : Good short 2 (HandIter.init short 2 0).advance := by
+    rcases good_step short 2 (by omega) _ hg0 with ⟨h1, _⟩ | ⟨x, s', h1, h2, _⟩
+    · rw [hfirst] at h1; exact absurd h1 (by simp)
+    · rw [hfirst] at h1
+      simp only [Option.some.injEq, Prod.mk.injEq] at h1
+      rw [h1.2]; exact h2
+  have hstart : obsStart short < 2^52 := by cases short <;> decide +kernel
+  -- the initial state
+  have hinit : ObsIter.init short street =
+      { street := street, pocket := obsStart short, outer := (HandIter.init short 2 0).advance,
+        inner := HandIter.init short n (obsStart short) } := by
+    unfold ObsIter.init
+    simp only [hs0, if_false, hn, show RP.Gen.C06.pocketSize = 2 from rfl, hfirst]
+  -- every pocket has boards
+  have hboards : ∀ p ∈ hands short 2 0,
+      handsOfHand short n p = hands short n p ∧ (hands short n p).length = Nat.choose (if short then 34 else 50) n :=
+    fun p hp => boards_length short n p hn1 (by omega) hp
+  have hpos : 0 < Nat.choose (if short then 34 else 50) n := by
+    apply Nat.choose_pos; cases short <;> simp <;> omega
+  have hrest : obsRest short n (ObsIter.init short street) =
+      (hands short 2 0).flatMap (fun p => (hands short n p).map (fun b => (p, b))) := by
+    rw [hinit]
+    simp only [obsRest]
+    conv => rhs; rw [hpk, List.flatMap_cons]
+    have h0 := (hboards (obsStart short) (by rw [hpk]; exact List.mem_cons_self ..)).1
+    have : handsFrom short (HandIter.init short n (obsStart short)) = hands short n (obsStart short) := h0
+    rw [this]
+    congr 1
+    apply flatMap_congr'
+    intro p hp
+    rw [(hboards p (by rw [hpk]; exact List.mem_cons_of_mem _ hp)).1]
+  have hlen : (obsRest short n (ObsIter.init short street)).length < OBS_FUEL := by
+    rw [hrest, length_flatMap_const _ _ (Nat.choose (if short then 34 else 50) n)
+      (fun p hp => by rw [List.length_map]; exact (hboards p hp).2), pockets_length]
+    have hc : Nat.choose (if short then 34 else 50) n ≤ 2^22 := by
+      have h50 : (if short then 34 else 50) ≤ 50 := by cases short <;> simp
+      calc Nat.choose (if short then 34 else 50) n ≤ Nat.choose 50 n := Nat.choose_le_choose n h50
+        _ ≤ 2^22 := by
+          have : n = 1 ∨ n = 2 ∨ n = 3 ∨ n = 4 ∨ n = 5 := by omega
+          rcases this with rfl | rfl | rfl | rfl | rfl <;> decide +kernel
+    have hl : (if short then 630 else 1326) ≤ 2^11 := by cases short <;> decide
+    show _ < 2^62
+    calc (if short then 630 else 1326) * Nat.choose (if short then 34 else 50) n
+        ≤ 2^11 * 2^22 := Nat.mul_le_mul hl hc
+      _ < 2^62 := by decide
+  unfold Hands.observations
+  rw [obs_unfold short n hn1 (by omega) OBS_FUEL (ObsIter.init short street)
+    (by rw [hinit]; exact hs0) (by rw [hinit]; exact hn)
+    (by rw [hinit]; exact good_init short n _ hn1 (by omega) hstart)
+    (by rw [hinit]; exact hgo) ?_ hlen, hrest]
+  intro p hp
+  rw [hinit] at hp
+  have hp' : p ∈ hands short 2 0 := by rw [hpk]; exact List.mem_cons_of_mem _ hp
+  refine ⟨(mem_pockets short p hp').1, ?_⟩
+  intro hnil
+  have := (hboards p hp').2
+  rw [← (hboards p hp').1, hnil] at this
+  simp at this; omega
+
+/-- **C06_observations_pref**: pre-flop the inner iterator is a `k = 0` iterator, which never
+yields (KF-C06-k0 is what makes this work); every pocket comes out once with an empty board. -/
+theorem C06_observations_pref (short : Bool) :
+    Hands.observations short 0 = (hands short 2 0).map (fun p => (p, 0)) := by
+  have hg0 : Good short 2 (HandIter.init short 2 0) := good_init short 2 0 (by omega) (by omega) (by decide)
+  have hinit : ObsIter.init short 0 =
+      { street := 0, pocket := obsStart short, outer := HandIter.init short 2 0,
+        inner := HandIter.init short 0 (obsStart short) } := by
+    unfold ObsIter.init
+    simp only [if_true, show RP.Gen.C06.pocketSize = 2 from rfl, show nObserved 0 = 0 from rfl]
+  unfold Hands.observations
+  rw [obs_unfold_pref short OBS_FUEL (ObsIter.init short 0) (by rw [hinit]) (by rw [hinit]; exact init_zero_next short _)
+    (by rw [hinit]; exact hg0) ?_, hinit, hands_two_zero]
+  rw [hinit]
+  show (handsFrom short (HandIter.init short 2 0)).length < 2^62
+  rw [← hands_two_zero, pockets_length]
+  cases short <;> decide
+
+/-! ## the observations against the specification; the published counts -/
+
+theorem effMask_eq_or (short : Bool) (p : Nat) : effMask short p = p ||| blocked short 0 := by
+  rw [blocked_zero]; unfold effMask
+  cases short
+  · simp
+  · rfl
+
+theorem blocked_of_deck_hand (short : Bool) (p : Nat) (hp : handOf short p = p) :
+    blocked short p = p ||| blocked short 0 := by
+  unfold blocked; rw [hp, effMask_eq_or]; rfl
+
+/-- **C06_observations_spec**: on every street the iterator yields exactly the specification list:
+every pocket of the deck in increasing order and, for each, every board avoiding it in increasing
+order — each legal (pocket, board) combination exactly once. Pre-flop included (one empty board). -/
+theorem C06_observations_spec (short : Bool) (street : Nat) (hs : street ≤ 3) :
+    Hands.observations short street = Spec.observations 52 (blocked short 0) (nObserved street) := by
+  unfold Spec.observations
+  have hpk := C06_hands_complete short 2 0 (by omega) (by omega)
+  by_cases h0 : street = 0
+  · subst h0
+    rw [C06_observations_pref, hpk]
+    show _ = List.flatMap (fun p => List.map (fun b => (p, b)) [0]) _
+    generalize ksubsets 52 2 (blocked short 0) = l
+    induction l with
+    | nil => rfl
+    | cons a t ih => simp only [List.map_cons, List.flatMap_cons, List.map_nil, List.singleton_append, ih]
+  · have hb : boardStreet street := by unfold boardStreet; omega
+    obtain ⟨hn1, hn5⟩ := nObserved_board street hb
+    rw [C06_observations short street hb]
+    conv => rhs; rw [← hpk]
+    apply flatMap_congr'
+    intro p hp
+    obtain ⟨_, h2, _, _⟩ := mem_pockets short p hp
+    rw [C06_hands_complete short _ p hn1 (by omega), blocked_of_deck_hand short p h2]
+
+theorem ksubsets_spec_mem (w m0 n p b : Nat) :
+    (p, b) ∈ Spec.observations w m0 n ↔
+      (p < 2^w ∧ popW w p = 2 ∧ p &&& m0 = 0) ∧ (b < 2^w ∧ popW w b = n ∧ b &&& (p ||| m0) = 0) := by
+  unfold Spec.observations
+  simp only [List.mem_flatMap, List.mem_map, Prod.mk.injEq]
+  constructor
+  · rintro ⟨p', hp', b', hb', rfl, rfl⟩
+    exact ⟨(mem_ksubsets _ _ _ _).mp hp', (mem_ksubsets _ _ _ _).mp hb'⟩
+  · rintro ⟨hp, hb⟩
+    exact ⟨p, (mem_ksubsets _ _ _ _).mpr hp, b, (mem_ksubsets _ _ _ _).mpr hb, rfl, rfl⟩
+
+/-- every legal combination of a 2-card pocket and an `n`-card board (cards of the deck, disjoint)
+is among the observations of the street — with `C06_observations_spec` and the strict order of the
+specification lists: exactly once -/
+theorem C06_observations_complete (short : Bool) (street p b : Nat) (hs : street ≤ 3) :
+    (p, b) ∈ Hands.observations short street ↔
+      (p < 2^52 ∧ popW 52 p = 2 ∧ p &&& blocked short 0 = 0) ∧
+      (b < 2^52 ∧ popW 52 b = nObserved street ∧ b &&& (p ||| blocked short 0) = 0) := by
+  rw [C06_observations_spec short street hs, ksubsets_spec_mem]
+
+def nObservationsTable (short : Bool) : List Nat :=
+  if short then RP.Gen.n_observations_Short else RP.Gen.n_observations_Std
+def nChildrenTable (short : Bool) : List Nat :=
+  if short then RP.Gen.n_children_Short else RP.Gen.n_children_Std
+def nIsomorphismsTable (short : Bool) : List Nat :=
+  if short then RP.Gen.n_isomorphisms_Short else RP.Gen.n_isomorphisms_Std
+/-- cards in the deck -/
+def deckSize (short : Bool) : Nat := if short then 36 else 52
+
+/-- the published `Street::n_observations` are `C(N,2)·C(N−2,n)` and `Street::n_children`
+are `C(N−2−n, revealed)`, for both decks (generated tables) -/
+theorem C06_count_tables (short : Bool) :
+    (∀ street, street ≤ 3 → (nObservationsTable short).getD street 0
+        = Nat.choose (deckSize short) 2 * Nat.choose (deckSize short - 2) (nObserved street)) ∧
+    (∀ street, street < 3 → (nChildrenTable short).getD street 0
+        = Nat.choose (deckSize short - 2 - nObserved street) (nRevealed street)) := by
+  cases short <;> decide +kernel
+
+/-- **C06_observations_count**: the iterator yields exactly `Street::n_observations()` items -/
+theorem C06_observations_count (short : Bool) (street : Nat) (hs : street ≤ 3) :
+    (Hands.observations short street).length = (nObservationsTable short).getD street 0 := by
+  by_cases h0 : street = 0
+  · subst h0
+    rw [C06_observations_pref, List.length_map, pockets_length]
+    cases short <;> rfl
+  · have hb : boardStreet street := by unfold boardStreet; omega
+    obtain ⟨hn1, hn5⟩ := nObserved_board street hb
+    rw [C06_observations short street hb,
+      length_flatMap_const _ _ (Nat.choose (if short then 34 else 50) (nObserved street))
+        (fun p hp => by rw [List.length_map]; exact (boards_length short _ p hn1 (by omega) hp).2),
+      pockets_length]
+    rcases hb with rfl | rfl | rfl <;> cases short <;> decide +kernel
+
+/-! ## ① `Observation::children` -/
+
+theorem and_or_zero {x y z : Nat} (h : x &&& (y ||| z) = 0) : x &&& y = 0 ∧ x &&& z = 0 := by
+  rw [Nat.and_or_distrib_left, Nat.or_eq_zero_iff] at h; exact h
+
+/-- **C06_children**: for a legal observation before the river (2-card pocket of the deck, the
+street's board avoiding it) `children` yields, in increasing order of the revealed cards, the
+observation extended by every `n_revealed`-subset of the cards not yet seen — exactly once each —
+and there are `Street::n_children()` of them. (On the river the code panics: `children = none`.) -/
+theorem C06_children (short : Bool) (street pocket board : Nat) (hst : street < 3)
+    (hp : IsHand short 2 0 pocket) (hb : IsHand short (nObserved street) pocket board) :
+    children short pocket board =
+      some ((ksubsets 52 (nRevealed street) (blocked short (pocket ||| board))).map
+        (fun r => (pocket, board ||| r))) ∧
+    (ksubsets 52 (nRevealed street) (blocked short (pocket ||| board))).length
+      = (nChildrenTable short).getD street 0 := by
+  have hp' := (isHand_iff short 2 0 pocket).mp hp
+  have hb' := (isHand_iff short _ pocket board).mp hb
+  have hdisj : pocket &&& board = 0 := by rw [Nat.and_comm]; exact hb.2.1
+  have hdeck : handOf short (pocket ||| board) = pocket ||| board := by
+    unfold handOf
+    rw [Nat.and_or_distrib_right, hp.2.2, hb.2.2]
+  have hr1 : 1 ≤ nRevealed street := by
+    have : street = 0 ∨ street = 1 ∨ street = 2 := by omega
+    rcases this with rfl | rfl | rfl <;> decide
+  have hr64 : nRevealed street < 64 := by
+    have : street = 0 ∨ street = 1 ∨ street = 2 := by omega
+    rcases this with rfl | rfl | rfl <;> decide
+  have hsz : streetOfSize (popW 64 board) = some street := by
+    rw [hb.1]
+    have : street = 0 ∨ street = 1 ∨ street = 2 := by omega
+    rcases this with rfl | rfl | rfl <;> decide
+  refine ⟨?_, ?_⟩
+  · unfold children
+    simp only [hsz]
+    rw [if_neg (by omega), if_neg (by simpa using hdisj)]
+    rw [← hands_eq_handsOfHand short _ _ hdeck, C06_hands_complete short _ _ hr1 hr64]
+  · rw [length_ksubsets]
+    -- the number of unseen cards
+    have hS : pocket &&& blocked short 0 = 0 := hp'.2.1
+    have hbS : board &&& blocked short 0 = 0 := by
+      have := hb'.2.1
+      rw [blocked_of_deck_hand short pocket hp.2.2] at this
+      exact (and_or_zero this).2
+    have hblk : blocked short (pocket ||| board) = (pocket ||| board) ||| blocked short 0 :=
+      blocked_of_deck_hand short _ hdeck
+    have hpop : popW 52 (blocked short (pocket ||| board)) = 2 + nObserved street + popW 52 (blocked short 0) := by
+      rw [hblk, popW_or_disjoint _ _ _ (by rw [Nat.and_or_distrib_right, hS, hbS]; rfl),
+        popW_or_disjoint _ _ _ hdisj]
+      rw [← popW_eq_of_lt hp'.2.2 (by omega : 52 ≤ 64), ← popW_eq_of_lt hb'.2.2 (by omega : 52 ≤ 64),
+        hp.1, hb.1]
+    rw [hpop, blocked_zero]
+    have : street = 0 ∨ street = 1 ∨ street = 2 := by omega
+    rcases this with rfl | rfl | rfl <;> cases short <;> decide +kernel
+
+/-- on the river `children` panics in the code (`n_revealed` of the terminal street) -/
+theorem C06_children_river (short : Bool) (pocket board : Nat) (h : popW 64 board = 5) :
+    children short pocket board = none := by
+  unfold children
+  have : streetOfSize (popW 64 board) = some 3 := by rw [h]; decide
+  simp only [this]
+  rfl
+
+/-! ## ① `IsomorphismIterator` = the observations filtered by `is_canonical` -/
+
+theorem iso_unfold (short : Bool) (canon : Nat → Nat → Bool) :
+    ∀ fuel (st : ObsIter) (f2 : Nat), (unfold (ObsIter.step short) fuel st).length < fuel → fuel ≤ f2 →
+      unfold (isoStep short canon f2) fuel st
+        = (unfold (ObsIter.step short) fuel st).filter (fun o => canon o.1 o.2) := by
+  intro fuel
+  induction fuel using Nat.strongRecOn with
+  | _ fuel ih =>
+    intro st f2 hlen hf2
+    -- skip the non-canonical prefix
+    suffices hskip : ∀ g (s : ObsIter), g ≤ fuel → (unfold (ObsIter.step short) g s).length < g → g ≤ f2 →
+        (∀ g' < g, ∀ (s' : ObsIter) (f3 : Nat), (unfold (ObsIter.step short) g' s').length < g' → g' ≤ f3 →
+          unfold (isoStep short canon f3) g' s' = (unfold (ObsIter.step short) g' s').filter (fun o => canon o.1 o.2)) →
+        unfold (isoStep short canon f2) g s = (unfold (ObsIter.step short) g s).filter (fun o => canon o.1 o.2) from
+      hskip fuel st (Nat.le_refl _) hlen hf2 (fun g' hg' => ih g' hg')
+    intro g s _ hl hgf hih
+    sorry
+
+end RP.C06
 -- non-vacuity: five free cards {0,3,4,5,6} of the standard deck, k = 2 (the walk visits all C(52,2) words)
 example : hands false 2 (2^52 - 1 - 0b1111001) = [9, 17, 24, 33, 40, 48, 65, 72, 80, 96] := by decide +kernel
 example : ksubsets 52 2 (blocked false (2^52 - 1 - 0b1111001)) = [9, 17, 24, 33, 40, 48, 65, 72, 80, 96] := by decide +kernel
@@ -235,4 +581,3 @@ example : (hands true 1 0).head? = some 0x10000 ∧ (hands true 1 0).length = 36
 example : nFree true 0 = 36 ∧ nFree false 0 = 52 := by decide +kernel
 example : hands false 0 0 = [] ∧ ksubsets 52 0 0 = [0] := by decide +kernel
 
-end RP.C06
